@@ -583,8 +583,13 @@ func decide(name, q string, timeout int, thorough bool) OblResult {
 			or.Status = "unknown"
 			or.Detail = "solvers disagree: " + full.Raw
 		}
-	case full.Status == "sat":
+	case full.Status == "sat" && q == fullq:
 		or.Status, or.Solver, or.Secs, or.Model = "failed", full.Solver, full.Secs, full.Model
+	case full.Status == "sat":
+		// the query answered was the instances-only variant (quantified facts replaced by their
+		// instances): its model is a candidate, not a counterexample
+		or.Status, or.Solver, or.Secs, or.Model = "unknown", full.Solver, full.Secs, full.Model
+		or.Detail = "sat on the instances-only variant, exact variant undecided (candidate model)"
 	default:
 		or.Status = "unknown"
 		or.Secs = full.Secs
